@@ -282,7 +282,7 @@ func proposalCase(o *hx.Out, k int, r *prng.R) {
 	// corpus cases 7..10 and a quarter of the others: co-signed transactions of different senders tied by Conflicts
 	// attributes, the payer's fees at the edge of its balance (see genEdge)
 	edge := (k >= 7 && k <= 10) || (!boundary && !many && r.Chance(1, 4))
-	if k >= 7 && k <= 12 {
+	if k >= 7 && k <= 13 {
 		bind, boundary = "none", false
 	}
 	// corpus cases 11, 12 and a third of the others: a block made elsewhere carries a Conflicts attribute naming a pooled
@@ -291,6 +291,10 @@ func proposalCase(o *hx.Out, k int, r *prng.R) {
 	if foreign {
 		edge = false
 	}
+	// corpus case 13 and a quarter of the others: a pooled transaction with a NON-standard witness carries an attribute
+	// whose fee a block raises while it is pooled (see carriedAttrCase)
+	attrCase := k == 13 || (!many && !foreign && r.Chance(1, 4))
+	var attrPending func() *transaction.Transaction // builds the setAttributeFee transaction for the next block
 	if k < 6 {
 		// corpus: the defect fixed by 2cbe22b (state root not counted when sizing the proposal) lived here
 		nc.stateRoot = true
@@ -453,6 +457,9 @@ func proposalCase(o *hx.Out, k int, r *prng.R) {
 				return
 			}
 		}
+		if attrCase && round == 0 {
+			attrPending = carriedAttrCase(o, r, k, s, A, senders, committee)
+		}
 		if r.Chance(1, 2) && !many {
 			// the chain moves on before this node proposes: the pool is re-checked against the new state
 			nblk := r.Range(1, 2)
@@ -464,6 +471,15 @@ func proposalCase(o *hx.Out, k int, r *prng.R) {
 			o.Count("proposal:interleaved-blocks")
 		}
 		policyMoves := r.Chance(1, 3) && !many
+		if attrPending != nil {
+			policyMoves = false
+			moved["attrfee-up"] = true
+			ptx := attrPending()
+			attrPending = nil
+			if !send(A.addBlock(ptx), "policy-block") {
+				return
+			}
+		}
 		if policyMoves {
 			// the committee changes a Policy value between pooling and proposing: whatever stays pooled must
 			// still be admissible under the new value (IsTxStillRelevant, blockchain.go:3192-3229)
@@ -1052,4 +1068,65 @@ func ledgerLine(o *hx.Out, k int, r *prng.R, s *scen, A, B *world, nc *netCfg, r
 	o.Line(head.String()+body.String(), obs)
 	o.Count("ledger:" + strings.SplitN(strings.SplitN(obs, ":", 2)[0], " ", 2)[0])
 	return true
+}
+
+// carriedAttrCase pools a transaction whose second signer is an inline NON-standard script (true while the chain is
+// low enough) and that carries one attribute Policy prices — NotValidBefore, Conflicts or (signed by the committee)
+// HighPriority — with a network fee that pays exactly what the calculator says. It returns the committee's
+// setAttributeFee transaction that raises the fee of THAT attribute type to around the point where the network fee
+// stops covering size + attribute fees (one below, exactly, one above, further above). After the block carrying it,
+// IsTxStillRelevant must drop the transaction as soon as the remainder is negative — running the witnesses with a
+// negative gas limit (= unlimited for the VM) is no substitute — or the proposal built next is refused by the replica.
+func carriedAttrCase(o *hx.Out, r *prng.R, k int, s *scen, A *world, senders []*acct, committee *acct) func() *transaction.Transaction {
+	height := A.bc.BlockHeight()
+	sender := senders[2%len(senders)]
+	if A.bc.GetUtilityTokenBalance(sender.hash, util.Uint160{}).Int64() < 5_0000_0000 {
+		sender = committee
+	}
+	kind := r.Intn(3)
+	if k == 13 {
+		kind = 0
+	}
+	signers := []*acct{sender, A.ledgerGuard(height + 6)}
+	var at transaction.AttrType
+	var attr transaction.Attribute
+	mult := int64(1)
+	switch kind {
+	case 0:
+		at = transaction.NotValidBeforeT
+		attr = transaction.Attribute{Type: at, Value: &transaction.NotValidBefore{Height: 0}}
+	case 1:
+		at = transaction.ConflictsT
+		var h util.Uint256
+		copy(h[:], r.Bytes(32))
+		attr = transaction.Attribute{Type: at, Value: &transaction.Conflicts{Hash: h}}
+	default:
+		at = transaction.HighPriority
+		attr = transaction.Attribute{Type: at}
+		if sender != committee {
+			signers = []*acct{sender, committee, signers[1]}
+		}
+	}
+	c := s.newCand(r, signers, 0)
+	c.tx.SystemFee = 100_0000
+	c.tx.ValidUntilBlock = height + 6
+	c.tx.Attributes = []transaction.Attribute{attr}
+	c.finish(0)
+	if at == transaction.ConflictsT {
+		mult = int64(len(c.tx.Signers))
+	}
+	t, _ := transaction.NewTransactionFromBytes(c.tx.Bytes())
+	if err := A.bc.PoolTx(t); err != nil {
+		o.Count("proposal:carried-attr:not-pooled:" + classify(err))
+		return nil
+	}
+	left := c.tx.NetworkFee - c.need
+	d := []int64{1, 1, 0, -1, int64(r.Range(2, 100000))}[r.Intn(5)]
+	if k == 13 {
+		d = 1
+	}
+	up := max((left+d+mult-1)/mult, 1)
+	o.Count(fmt.Sprintf("proposal:carried-attr:type=%d,edge%+d", at, min(d, 2)))
+	v := min(s.attrFeeOf(at)+up, 10_0000_0000)
+	return func() *transaction.Transaction { return A.policyTx("setAttributeFee", int64(at), v) }
 }
